@@ -342,7 +342,6 @@ fn trace(msg: &str) {
 fn eval_cases(cx: &mut Ctx, exe: &std::path::Path, cases: &[Case], bound: Duration) {
     trace(&format!("eval_cases {} start", cases.len()));
     // 1. implementation
-    let n_self_before = cx.hang_seen;
     let raw = observe_all(cases, &mut cx.hang_seen, bound);
     let mut outs: Vec<Option<BTreeMap<String, String>>> = vec![];
     for (c, r) in cases.iter().zip(raw.into_iter()) {
@@ -375,7 +374,6 @@ fn eval_cases(cx: &mut Ctx, exe: &std::path::Path, cases: &[Case], bound: Durati
             }
         }
     }
-    let _ = n_self_before;
     trace("implementation done");
     // 2. model and specification
     let mut lines = vec![];
@@ -969,7 +967,7 @@ fn main() {
             }
             if tok.len() == 4 && tok[0] == "case" {
                 if let (Some(g), Ok(s), Ok(t)) = (G::parse(tok[1]), tok[2].parse::<usize>(), tok[3].parse::<usize>()) {
-                    if g.n == 0 || (s < g.n && t < g.n) {
+                    if s < g.n && t < g.n {
                         cases.push(Case { g, s, t, origin: "corpus", only: None });
                     }
                 }
@@ -999,6 +997,7 @@ fn main() {
         if args.thorough() {
             exhaustive(3, 3, &mut cases);
             exhaustive(4, 2, &mut cases);
+            exhaustive(4, 3, &mut cases);
         } else {
             // a deterministic third of the 3-node, 3-edge listings per seed
             let mut all = vec![];
@@ -1009,7 +1008,7 @@ fn main() {
         cx.rep.exhaustive = true;
         cx.rep.exhaustive_note = format!(
             "all ordered edge listings (weights 1,2,5; self-loops and parallel edges in both listing orders included) with <= 3 edges on 1-2 nodes and <= 2 edges on 3 nodes{}; (source,target) cycles through all pairs including source = target; plus PRNG graphs and stores (not exhaustive)",
-            if args.thorough() { ", all 3-edge listings on 3 nodes and all 2-edge listings on 4 nodes" } else { ", and one third (by seed) of the 3-edge listings on 3 nodes" }
+            if args.thorough() { ", all 3-edge listings on 3 nodes and all listings of <= 3 edges on 4 nodes" } else { ", and one third (by seed) of the 3-edge listings on 3 nodes" }
         );
         for chunk in cases.chunks(20_000) {
             eval_cases(&mut cx, &exe, chunk, bound);
@@ -1018,7 +1017,7 @@ fn main() {
 
         // 3. random graphs
         let mut rng = Rng::new(args.seed);
-        let (n_rand, nmax) = if args.thorough() { (6000, 40) } else { (700, 24) };
+        let (n_rand, nmax) = if args.thorough() { (20000, 64) } else { (700, 24) };
         for i in 0..n_rand {
             let g = random_graph(&mut rng, if i % 10 == 0 { nmax } else { nmax / 2 });
             let s = rng.usize(g.n);
